@@ -49,8 +49,8 @@ CHECKS = {
         design="DESIGN.md §4 C05",
     ),
     "C06": dict(
-        rules="R06.1-R06.23, R05.3",
-        what="per-Op agreement of sources()/set_sources()/stolen() and PatchVisitor; borrow flag honoured by code generation; who may create IncRef/DecRef and which visit methods the post-refcount passes override; every emitter that initialises/traverses/clears/recycles instance storage covers the attributes of all classes in base_mro; memo keys of the exception transform; ERR_* exhaustiveness; definedness checks before every reading op; the two borrow-chain walks (lifetime scope, reassigned root) step through the same op kinds; a primitive's is_borrowed flag agrees with whether the bound C function takes a reference to a result it reads from a container slot / borrowing API; an argument declared stolen is given away on every exit of the C function (structured walk over clang's statement tree), and a function that gives a parameter away either owns it (declared stolen) or takes its own reference; the must-defined CFG has an unconditional edge to the handler of every normal successor; the generated constructor tests the failure value both calling conventions of __init__ produce; the definedness bitmap is cleared by `del`; attribute facts of __init__ are credited only to ops whose receiver is self; a stealing op that fails releases its operand (Cast: known finding); pass order of compile_scc_to_ir; conclusions from __init__ attribute facts respect the self-leak analysis, which looks for `self` in every operand-keeping op; lib-rt releases a replaced slot only after the store; glue code unboxes borrowed; preallocated comprehension results (known finding); refcount edge sets keep their side; classes whose compiled __new__/__del__ (own or a subclass's) run without a completed __init__ get no always-defined attributes; the spill pass takes a reference before storing a borrowed value in the environment",
+        rules="R06.1-R06.24, R05.3",
+        what="per-Op agreement of sources()/set_sources()/stolen() and PatchVisitor; borrow flag honoured by code generation; who may create IncRef/DecRef and which visit methods the post-refcount passes override; every emitter that initialises/traverses/clears/recycles instance storage covers the attributes of all classes in base_mro; memo keys of the exception transform; ERR_* exhaustiveness; definedness checks before every reading op; the two borrow-chain walks (lifetime scope, reassigned root) step through the same op kinds; a primitive's is_borrowed flag agrees with whether the bound C function takes a reference to a result it reads from a container slot / borrowing API; an argument declared stolen is given away on every exit of the C function (structured walk over clang's statement tree), and a function that gives a parameter away either owns it (declared stolen) or takes its own reference; the must-defined CFG has an unconditional edge to the handler of every normal successor; the generated constructor tests the failure value both calling conventions of __init__ produce; the definedness bitmap is cleared by `del`; attribute facts of __init__ are credited only to ops whose receiver is self; a stealing op that fails releases its operand (Cast: known finding); pass order of compile_scc_to_ir; conclusions from __init__ attribute facts respect the self-leak analysis, which looks for `self` in every operand-keeping op; lib-rt releases a replaced slot only after the store; glue code unboxes borrowed; preallocated comprehension results (known finding); refcount edge sets keep their side; classes whose compiled __new__/__del__ (own or a subclass's) run without a completed __init__ get no always-defined attributes; the spill pass takes a reference before storing a borrowed value in the environment; the items of a stolen tuple are unborrowed before a fallible op is emitted (known finding)",
         quant="function IR of all compiled programs, on every path",
         technique="sibling cross-check of the three declarations of each Op's operand set; who-may-create rule; CFG ordering of the pass pipeline; cross-language ownership check of the primitive registry against clang's AST of lib-rt (borrowed results, stolen arguments)",
         note="Reference-count balance of generated IR on every path needs the compiler to run on programs (translation validation by execution) and is not decided; the spill pass's balance argument is liveness-based and not decided.",
